@@ -25,12 +25,6 @@ theorem sp_expectPeekVarOrAutoVar (env : Env) (sn : String) (n : Nat) (k : Nat) 
   tstart hi
   tgo [sp_parseCommandStatement T E, optimpok_some T E, optimpok_none T E]
 
-theorem sp_peekTokenIsAutoVar (env : Env) (k : Nat) (s : PState) (hi : Inv T E k s) :
-    tri (El T E) (peekTokenIsAutoVar env) s (fun _ s' => s' = s) := by
-  unfold peekTokenIsAutoVar
-  tstart hi
-  tgo
-
 theorem sp_collectUntil (stop : Tok → Bool) (onEOF : PFail) (ho : El T E onEOF) :
     ∀ (n : Nat) (parts : List String) (k : Nat) (s : PState), Inv T E k s →
     tri (El T E) (collectUntil stop onEOF n parts) s (Post T E k (fun _ => True)) := by
@@ -85,7 +79,7 @@ theorem sp_parseLeafBooleanExpression (env : Env) (sn : String) (n : Nat) (k : N
     tri (El T E) (parseLeafBooleanExpression env sn n) s (Post T E k (fun r => ImpOK T E r.2)) := by
   unfold parseLeafBooleanExpression
   tstart hi
-  tgo [sp_peekTokenIsAutoVar T E, sp_expectPeekVarOrAutoVar T E, sp_collectUntil T E,
+  tgo [sp_expectPeekVarOrAutoVar T E, sp_collectUntil T E,
     sp_parseConditionVarOperator T E, sp_parseConditionFlagLikeOperator T E]
 
 theorem sp_boolBlock (env : Env) (sn : String) : ∀ n : Nat,
